@@ -210,8 +210,8 @@ RELP = 'ite(call("extract1", %s) != nil, path, call("extract0", %s))' % (RELC, R
 row(props=["C01"], func="pkg/adapter/cocafile.GetFilesWithFilter$1", params=["path", "fi", "err"], kind="returns", expr="nil",
     what="the directory walk is never cut short: the callback returns nil for every entry")
 row(props=["C01", "C09", "C17"], func="pkg/adapter/cocafile.GetFilesWithFilter$1", params=["path", "fi", "err"], kind="emits", target="free:files", tag={}, total=1,
-    when='!(call("deref", free_gitIgnore) != nil && call("github.com/sabhiram/go-gitignore.(GitIgnore).MatchesPath", call("deref", free_gitIgnore), ' + RELP + ')) && !contains(path, "testData") && fi != nil && !IsDir(fi) && call("dyn", call("deref", free_filter), path)',
-    fields={"<elem>": "path"}, what="a file (never a directory) is selected ⇔ not ignored (the ignore file's patterns apply to the path relative to the analysed directory), not under testData, accepted by the filter")
+    when='!(call("deref", free_gitIgnore) != nil && call("github.com/sabhiram/go-gitignore.(GitIgnore).MatchesPath", call("deref", free_gitIgnore), ' + RELP + ')) && !exists(call("strings.Split", toSlash(' + RELP + '), "/"), seg, seg == "testData") && fi != nil && !IsDir(fi) && call("dyn", call("deref", free_filter), path)',
+    fields={"<elem>": "path"}, what="a file (never a directory) is selected ⇔ not below a fixture directory named testData (a path segment of the relative path, not a substring), not ignored (the ignore file's patterns apply to the path relative to the analysed directory), not under testData, accepted by the filter")
 TT = "pkg/infrastructure/ast/ast_java."
 # (no row for ParseTargetType: the order field > parameter > local it implements is not what the property asks for — Java scoping is the
 #  reverse, and the tables are not scoped per method; a row copied from the code would raise an alarm on a correct repair. DESIGN.md §6.)
